@@ -308,3 +308,33 @@ pub fn zd_table_of_message(bytes: &[u8]) -> String {
         _ => String::new(),
     }
 }
+
+/// ` | ZC ..` table answering what the real compressor does with the blocks the real writer
+/// (threshold 16,384) would cut out of the op stream carried by `stream`.
+pub fn zc_table_real(stream: &[u8]) -> String {
+    let mut data = Vec::new();
+    for (compressed, payload) in walk_blocks(stream) {
+        if compressed {
+            match zstd_decompress(&payload) {
+                Some(p) => data.extend_from_slice(&p),
+                None => return String::new(),
+            }
+        } else {
+            data.extend_from_slice(&payload);
+        }
+    }
+    let mut entries = Vec::new();
+    for chunk in data.chunks(16_384) {
+        let mut buf = vec![0u8; chunk.len()];
+        match zstd::bulk::compress_to_buffer(chunk, &mut buf[..], 0) {
+            Ok(n) => entries.push(format!("{} {}", hex(chunk), hex(&buf[..n]))),
+            Err(_) => entries.push(format!("{} !", hex(chunk))),
+        }
+    }
+    let mut out = format!(" | ZC {}", entries.len());
+    for e in entries {
+        out.push(' ');
+        out.push_str(&e);
+    }
+    out
+}
